@@ -123,3 +123,13 @@ Theorem C04_fit_plans_det : forall sortf,
   fits info (rq_mem_req req) plans.
 Proof. exact plans_fit_det. Qed.
 Print Assumptions C04_fit_plans_det.
+
+(* ... and when exactly one NUMA node holds cores of the origin map (a realloc), that node
+   is visited first, so the first plan comes from it whenever it can hold the request *)
+Theorem C04_origin_node_first : forall info origin a,
+  In a (numa_nodes info) ->
+  origin_on (nr_numa (ni_cap info)) origin a = true ->
+  (forall b, In b (numa_nodes info) -> b <> a -> origin_on (nr_numa (ni_cap info)) origin b = false) ->
+  exists t, numa_visit_order info origin = cons a t.
+Proof. exact visit_order_origin_first. Qed.
+Print Assumptions C04_origin_node_first.
